@@ -71,10 +71,85 @@ func stdExpect(pattern, subject string) (bool, bool) {
 	return true, re.MatchString(subject)
 }
 
+// rotation patterns: pattern i matches exactly its own subject
+func rotPattern(i int) string { return fmt.Sprintf("^r%dx$", i) }
+func rotSubject(i int) string { return fmt.Sprintf("r%dx", i) }
+
+// plausible bounds of a bounded cache, and sizes just around them
+var c15Bounds = []int{8, 16, 32, 64, 100, 128, 250, 256, 500, 512, 1000, 1024}
+
+// the copy-on-write cache makes n first-time uses cost n*n/2 map insertions: the two largest sizes only in the thorough tier
+func c15BoundsFor() []int {
+	if deep() {
+		return c15Bounds
+	}
+	return c15Bounds[:len(c15Bounds)-2]
+}
+
+// genC15Rotation: one caller cycling over w distinct patterns for a few laps, w just around a plausible cache bound:
+// every use after the first lap is a repeated use of a pattern that may have been evicted (or be about to be) meanwhile.
+func genC15Rotation(r *Rand, sc *Scenario) {
+	w := pick(r, c15BoundsFor()) + r.Range(-1, 3)
+	laps := r.Range(2, 4)
+	var ops []Op
+	uid := uint32(0)
+	for l := 0; l < laps; l++ {
+		for i := 0; i < w; i++ {
+			uid++
+			subj := rotSubject(i)
+			if r.Chance(250) {
+				subj = rotSubject((i + 1) % w) // must not match
+			}
+			ops = append(ops, Op{UID: uid, Kind: KPattern, Path: "p", Pattern: rotPattern(i), Str: subj, Role: "rotation"})
+		}
+	}
+	sc.Tasks = [][]Op{ops}
+}
+
+// genC15Churn: the cache is first filled (by the controller, before the callers start) with n = bound + 0..3 patterns;
+// then readers make repeated uses of the oldest entries that a cache of that bound still holds while writers make
+// first-time uses of new patterns (each of which evicts one of them, if the cache is bounded at that size).
+func genC15Churn(r *Rand, sc *Scenario) {
+	bound := pick(r, c15BoundsFor())
+	n := bound + r.Range(0, 3)
+	sc.Params = map[string]any{"prefill": float64(n)}
+	uid := uint32(0)
+	readers, writers := r.Range(1, 3), r.Range(1, 2)
+	for t := 0; t < readers+writers; t++ {
+		var ops []Op
+		for i := 0; i < r.Range(3, 10); i++ {
+			uid++
+			if t < readers {
+				k := n - bound + r.Intn(6)
+				if k >= n {
+					k = n - 1
+				}
+				subj := rotSubject(k)
+				if r.Chance(250) {
+					subj = rotSubject(k + 1)
+				}
+				ops = append(ops, Op{UID: uid, Kind: KPattern, Path: "p", Pattern: rotPattern(k), Str: subj, Role: "hot"})
+			} else {
+				k := n + int(uid)
+				ops = append(ops, Op{UID: uid, Kind: KPattern, Path: "p", Pattern: rotPattern(k), Str: rotSubject(k), Role: "churn"})
+			}
+		}
+		sc.Tasks = append(sc.Tasks, ops)
+	}
+}
+
 func genC15(seed uint64) *Scenario {
 	r := NewRand(seed)
 	sc := &Scenario{Property: "C15", GenSeed: seed, Seed: r.U64()}
 	sc.Sched = swarmSched(r)
+	switch x := r.Intn(100); {
+	case x < 2:
+		genC15Rotation(r, sc)
+		return sc
+	case x < 5:
+		genC15Churn(r, sc)
+		return sc
+	}
 	ntasks := pick(r, []int{1, 1, 2, 2, 3, 4, 4, 6, 8})
 	if r.Chance(30) {
 		ntasks = pick(r, []int{16, 32, 64})
@@ -159,7 +234,20 @@ func runC15(sc *Scenario, keepLog bool) *RunReport {
 	resetForRun() // cold cache: first-time compilations happen inside the run
 	sim := newSimFor(sc, keepLog)
 	defer rt.Install(nil)
-	cr := runConcurrent(sc, sim, nil, nil, 30*time.Second)
+	if n, ok := sc.Params["prefill"].(float64); ok && n > 0 {
+		// the controller fills the cache before the callers start (inline: no context switches, same simulator)
+		env := &Env{}
+		for i := 0; i < int(n); i++ {
+			op := Op{UID: 0x20000000 + uint32(i), Kind: KPattern, Path: "p", Pattern: rotPattern(i), Str: rotSubject(i)}
+			if out := env.Exec(&op, &rt.OpCtx{UID: op.UID, Kind: kindNums[KPattern]}); !out.Valid {
+				rep.Violations = append(rep.Violations, Violation{Property: "C15", Class: "outcome-mismatch", OpUID: op.UID, OpKind: op.Kind, Site: "verdict",
+					Expected: "valid", Got: out.Key(), Detail: fmt.Sprintf("prefill #%d (%s): differs from Go's regexp package compiled from that very pattern", i, op.brief())})
+				break
+			}
+		}
+		rep.probe("cache-prefilled-patterns", int(n))
+	}
+	cr := runConcurrent(sc, sim, nil, nil, 60*time.Second)
 	var kinds []string
 	if cr.Run.Stuck {
 		rep.HarnessErr = "watchdog: a task did not come back to the controller"
